@@ -1,6 +1,6 @@
 use std::collections::{HashMap, VecDeque};
 use std::env;
-use std::path::{Path, PathBuf};
+use std::path::{Component, Path, PathBuf};
 use std::str::FromStr;
 use std::sync::Arc;
 
@@ -42,8 +42,20 @@ impl FileRange {
 pub struct FilePath(pub PathBuf);
 
 impl FilePath {
+    /// Joins `path` onto this directory. `.` and `..` components are resolved lexically, so that a file
+    /// reached through different spellings of its path (`sub/../a.td`, `a.td`) is one and the same file.
     pub fn join(&self, path: impl AsRef<Path>) -> FilePath {
-        FilePath(self.0.join(path))
+        let mut joined = PathBuf::new();
+        for component in self.0.join(path).components() {
+            match component {
+                Component::CurDir => {}
+                Component::ParentDir if matches!(joined.components().next_back(), Some(Component::Normal(_))) => {
+                    joined.pop();
+                }
+                other => joined.push(other),
+            }
+        }
+        FilePath(joined)
     }
 
     pub fn parent(&self) -> Option<FilePath> {
